@@ -15,8 +15,10 @@
 // reports a difference, and a copy() destination of exactly the expected length whose surroundings are checked.
 #include "common.hpp"
 
+#include <etl/string.hpp>
 #include <etl/string_view.hpp>
 
+#include <string>
 #include <string_view>
 #include <type_traits>
 
@@ -355,6 +357,183 @@ struct Run {
              | (a >= b ? 32 : 0);
     }
 
+    // ---- etl::char_traits<Char> members as operations of their own (tr_*) -------------------------------------
+    // In the plain build the guard zones of a buffer that is written to are filled with the value 2 (in no
+    // alphabet) and inspected afterwards; in the sanitizer build they are poisoned.
+    static void guards(Out& o, Block<Char> const& b)
+    {
+#if !defined(__SANITIZE_ADDRESS__)
+        auto const pad = static_cast<Char>(2);
+        for (std::size_t i = 0; i < 8; ++i) {
+            if (b.p[b.n + i] != pad) {
+                o.tok("wrote-past-end-at").unum(b.n + i);
+                break;
+            }
+        }
+        for (std::size_t i = 1; i <= 8; ++i) {
+            if (*(b.p - i) != pad) {
+                o.tok("wrote-before-begin-at").unum(i);
+                break;
+            }
+        }
+#else
+        (void)o;
+        (void)b;
+#endif
+    }
+    static void put_buf(Out& o, Char const* ret, Block<Char> const& b)
+    {
+        o.tok("ok").num(static_cast<i64>(ret - b.p)).num(static_cast<i64>(b.n));
+        for (std::size_t i = 0; i < b.n; ++i) { o.num(static_cast<i64>(b.p[i])); }
+        guards(o, b);
+    }
+    template <typename I>
+    static i64 as_i64(I x)
+    {
+        return static_cast<i64>(x);
+    }
+
+    static bool traits(std::string const& what, Toks& in, Out& impl, Out& ref)
+    {
+        using ET = etl::char_traits<Char>;
+        using ST = std::char_traits<Char>;
+        using EI = typename ET::int_type;
+        using SI = typename ST::int_type;
+        if (what == "move" || what == "copy") {
+            auto buf = in.list();
+            auto d   = static_cast<std::size_t>(in.unum());
+            auto s   = static_cast<std::size_t>(in.unum());
+            auto cnt = static_cast<std::size_t>(in.unum());
+            if (d + cnt > buf.size() || s + cnt > buf.size()) {
+                impl.tok("bad-case");
+                return true;
+            }
+            {
+                Block<Char> b(buf, {2});
+                guarded(impl, [&](Out& o) {
+                    auto* r = what == "move" ? ET::move(b.p + d, b.p + s, cnt) : ET::copy(b.p + d, b.p + s, cnt);
+                    put_buf(o, r, b);
+                });
+            }
+            // std::char_traits::copy requires disjoint ranges (memcpy)
+            bool const intersect = cnt != 0 && d < s + cnt && s < d + cnt;
+            if (what == "move" || !intersect) {
+                Block<Char> b(buf, {2});
+                auto* r = what == "move" ? ST::move(b.p + d, b.p + s, cnt) : ST::copy(b.p + d, b.p + s, cnt);
+                put_buf(ref, r, b);
+            }
+            return true;
+        }
+        if (what == "fill") {
+            auto buf = in.list();
+            auto d   = static_cast<std::size_t>(in.unum());
+            auto cnt = static_cast<std::size_t>(in.unum());
+            auto c   = static_cast<Char>(in.num());
+            if (d + cnt > buf.size()) {
+                impl.tok("bad-case");
+                return true;
+            }
+            {
+                Block<Char> b(buf, {2});
+                guarded(impl, [&](Out& o) { put_buf(o, ET::assign(b.p + d, cnt, c), b); });
+            }
+            Block<Char> b(buf, {2});
+            put_buf(ref, ST::assign(b.p + d, cnt, c), b);
+            return true;
+        }
+        if (what == "cmp") {
+            auto a   = in.list();
+            auto bl  = in.list();
+            auto cnt = static_cast<std::size_t>(in.unum());
+            if (cnt > a.size() || cnt > bl.size()) {
+                impl.tok("bad-case");
+                return true;
+            }
+            Block<Char> ba(a, bl);
+            Block<Char> bb(bl, a);
+            guarded(impl, [&](Out& o) { o.tok("ok").num(sign(ET::compare(ba.p, bb.p, cnt))); });
+            ref.tok("ok").num(sign(ST::compare(ba.p, bb.p, cnt)));
+            return true;
+        }
+        if (what == "find") {
+            auto sl  = in.list();
+            auto cnt = static_cast<std::size_t>(in.unum());
+            auto c   = static_cast<Char>(in.num());
+            if (cnt > sl.size()) {
+                impl.tok("bad-case");
+                return true;
+            }
+            Block<Char> b(sl, {static_cast<i64>(c)});
+            guarded(impl, [&](Out& o) {
+                auto const* r = ET::find(b.p, cnt, c);
+                o.tok("ok").num(r == nullptr ? -1 : static_cast<i64>(r - b.p));
+            });
+            auto const* r = ST::find(b.p, cnt, c);
+            ref.tok("ok").num(r == nullptr ? -1 : static_cast<i64>(r - b.p));
+            return true;
+        }
+        if (what == "len") {
+            auto sl = in.list();
+            Block<Char> b(with_nul(sl), sl);
+            guarded(impl, [&](Out& o) { o.tok("ok").unum(ET::length(b.p)); });
+            ref.tok("ok").unum(ST::length(b.p));
+            return true;
+        }
+        if (what == "chr") {
+            auto a = static_cast<Char>(in.num());
+            auto b = static_cast<Char>(in.num());
+            guarded(impl, [&](Out& o) {
+                Char x = a;
+                ET::assign(x, b);
+                o.tok("ok").b(ET::eq(a, b)).b(ET::lt(a, b)).num(as_i64(x));
+            });
+            Char x = a;
+            ST::assign(x, b);
+            ref.tok("ok").b(ST::eq(a, b)).b(ST::lt(a, b)).num(as_i64(x));
+            return true;
+        }
+        // to_int_type(c), eq_int_type(to_int_type(c), eof()), eof(), to_char_type(to_int_type(c))
+        if (what == "toint") {
+            auto c = static_cast<Char>(in.num());
+            guarded(impl, [&](Out& o) {
+                auto const e = ET::to_int_type(c);
+                o.tok("ok").num(as_i64(e)).b(ET::eq_int_type(e, ET::eof())).num(as_i64(ET::eof())).num(
+                    as_i64(ET::to_char_type(e)));
+            });
+            // libstdc++ maps char16_t(0xFFFF) to 0xFFFD (its answer to LWG 2959; not in the standard)
+            if (!(std::is_same_v<Char, char16_t> && c == static_cast<Char>(0xFFFF))) {
+                auto const e = ST::to_int_type(c);
+                ref.tok("ok").num(as_i64(e)).b(ST::eq_int_type(e, ST::eof())).num(as_i64(ST::eof())).num(
+                    as_i64(ST::to_char_type(e)));
+            }
+            return true;
+        }
+        // to_char_type(i) for an i that is the int_type of some character
+        if (what == "tochar") {
+            auto i = in.num();
+            guarded(impl, [&](Out& o) { o.tok("ok").num(as_i64(ET::to_char_type(static_cast<EI>(i)))); });
+            ref.tok("ok").num(as_i64(ST::to_char_type(static_cast<SI>(i))));
+            return true;
+        }
+        // eq_int_type(i, j), not_eof(i), eq_int_type(not_eof(i), eof())
+        if (what == "eqint") {
+            auto i = in.num();
+            auto j = in.num();
+            guarded(impl, [&](Out& o) {
+                auto const x = static_cast<EI>(i);
+                auto const y = static_cast<EI>(j);
+                o.tok("ok").b(ET::eq_int_type(x, y)).num(as_i64(ET::not_eof(x))).b(
+                    ET::eq_int_type(ET::not_eof(x), ET::eof()));
+            });
+            auto const x = static_cast<SI>(i);
+            auto const y = static_cast<SI>(j);
+            ref.tok("ok").b(ST::eq_int_type(x, y)).num(as_i64(ST::not_eof(x))).b(
+                ST::eq_int_type(ST::not_eof(x), ST::eof()));
+            return true;
+        }
+        return false;
+    }
+
     static bool run(std::string const& op, Toks& in, Out& impl, Out& ref)
     {
         auto us      = op.find('_');
@@ -397,6 +576,7 @@ struct Run {
             return predicate(variant, in, impl, ref, [](auto const& v, auto a) { return v.ends_with(a); });
         }
         if (base == "compare") { return compare(variant, in, impl, ref); }
+        if (base == "tr") { return traits(variant, in, impl, ref); }
         if (op == "rel") {
             auto a = in.list();
             auto b = in.list();
@@ -507,7 +687,7 @@ struct Run {
             Block<Char> bh(h, h);
             // the destination has exactly the number of cells the standard says are written ([string.view.ops]:
             // rlen = min(n, size() - pos)); a write beyond them lands in the guard zone: poisoned in the sanitizer
-            // build, filled with the letter 'a' and inspected afterwards in the plain build.  The cells themselves
+            // build, filled with the value 2 (in no alphabet) and inspected afterwards in the plain build.  The cells themselves
             // start as 1 (neither a terminator nor a character of the alphabets).
             auto const avail = pos <= h.size() ? h.size() - pos : std::size_t{0};
             std::vector<i64> room((cnt < avail ? cnt : avail), 1);
@@ -518,23 +698,20 @@ struct Run {
                 for (std::size_t i = 0; i < r && i < room.size(); ++i) { o.num(static_cast<i64>(dest.p[i])); }
 #if !defined(__SANITIZE_ADDRESS__)
                 for (std::size_t i = 0; i < 8; ++i) {
-                    if (dest.p[room.size() + i] != static_cast<Char>('a')) {
+                    if (dest.p[room.size() + i] != static_cast<Char>(2)) {
                         o.tok("wrote-past-rlen-at").unum(room.size() + i);
                         break;
                     }
                 }
-                if (reinterpret_cast<Char const*>(dest.raw)[Block<Char>::G / sizeof(Char) - 1]
-                    != static_cast<Char>('a')) {
-                    o.tok("wrote-before-dest");
-                }
+                if (*(dest.p - 1) != static_cast<Char>(2)) { o.tok("wrote-before-dest"); }
 #endif
             };
             {
-                Block<Char> dest(room, {});
+                Block<Char> dest(room, {2});
                 guarded(impl, [&](Out& o) { run(o, E(bh.p, bh.n), dest); });
             }
             if (pos <= h.size()) {
-                Block<Char> dest(room, {});
+                Block<Char> dest(room, {2});
                 run(ref, S(bh.p, bh.n), dest);
             }
             return true;
